@@ -204,8 +204,10 @@ def unwrap1 : RefVal → RefVal
 
 /-- `cls(typ, np.array(value))` for a non-list, non-None value. -/
 def leafRef (typ : Ty) : RefVal → Except Exc PropValue
-  | .arr dt sh pid => .ok (PropValue.new typ (.arr dt sh pid))
-  | .scalar dt pid => .ok (PropValue.new typ (.arr dt [] pid))
+  -- an object array ALL of whose elements are `str` is normalised to a string array (fix 05c97c9: the
+  -- reference evaluator returns StringConcat / StringSplit results that way); other object arrays stay
+  | .arr dt sh pid => .ok (PropValue.new typ (.arr (if dt == .object then .str else dt) sh pid))
+  | .scalar dt pid => .ok (PropValue.new typ (.arr (if dt == .object then .str else dt) [] pid))
   | .opaque pid => .ok (PropValue.new typ (.arr .objmixed [] pid))
   | .ragged => .error .valueError
   | .none => .ok (PropValue.new typ .none)
